@@ -28,6 +28,7 @@ def run(ctx: Context) -> None:
     ctx.rule(wrappers)
     ctx.rule(moments)
     ctx.rule(no_state)
+    ctx.rule(totality)
 
 
 def hp(ctx: Context) -> None:
@@ -192,3 +193,68 @@ def no_state(ctx: Context) -> None:
                 ctx.fail("R5.no-state", f"{f.name}:decorator:{nm}", f"@{nm} on {f.name}: results are cached across calls", f, d)
     ctx.floor("R5", "functions of utils/time_series.py", n, 6)
     ctx.ok("R5.no-state", "time_series:scanned", f"{n} helpers write no module-level state")
+
+
+# ---------------------------------------------------------------------------------------------- totality on the stated domain
+def _guards(f):
+    """(condition that must hold, node) for every argument check of `f`: check_arg / _assert / assert / `if c: raise`."""
+    out = []
+    for st in walk_scope(f.node):
+        if isinstance(st, ast.Expr) and isinstance(st.value, ast.Call) and (dotted(st.value.func) or "").split(".")[-1] in ("check_arg", "_assert") and st.value.args:
+            out.append((st.value.args[0], False, st))
+        elif isinstance(st, ast.Assert):
+            out.append((st.test, False, st))
+        elif isinstance(st, ast.If) and st.body and all(isinstance(b, ast.Raise) for b in st.body) and not st.orelse:
+            out.append((st.test, True, st))     # raises when the test holds
+    return out
+
+
+def totality(ctx: Context) -> None:
+    """The filters and the summary are defined on the whole stated domain (every positive value for the log filters, every positive lambda,
+    every length from 3 - 8 for the summary): an argument check may reject what is outside it (x <= 0, non-finite, too short) but not part of it.
+    Decided for guards that compare a parameter with a threshold: the threshold of a value guard must be zero, that of a length guard at most the
+    shortest stated length."""
+    names = ("hp_filter", "hp_cycle_lamb1600_filter", "log_and_hp_filter", "diff_log_demean_filter", "get_mom_ts_1d", "get_mom_ts")
+    n_guards = 0
+    for nm in names:
+        f = ctx.func(f"{M}:{nm}")
+        min_len = 8 if nm.startswith("get_mom") else 3
+        for cond, negated, st in _guards(f):
+            for cmp in [x for x in ast.walk(cond) if isinstance(x, ast.Compare) and len(x.ops) == 1]:
+                l, r, op = cmp.left, cmp.comparators[0], cmp.ops[0]
+                for a, b, flip in ((l, r, False), (r, l, True)):
+                    uses_param = any(isinstance(x, ast.Name) and x.id in f.params for x in ast.walk(a))
+                    b_uses_param = any(isinstance(x, ast.Name) and x.id in f.params for x in ast.walk(b))
+                    if not uses_param or b_uses_param:
+                        continue
+                    n_guards += 1
+                    is_len = any((isinstance(x, ast.Call) and (dotted(x.func) or "") == "len") or (isinstance(x, ast.Attribute) and x.attr in ("shape", "size", "ndim")) for x in ast.walk(a))
+                    thr = b.value if isinstance(b, ast.Constant) and isinstance(b.value, (int, float)) and not isinstance(b.value, bool) else None
+                    if isinstance(b, ast.UnaryOp) and isinstance(b.op, ast.USub) and isinstance(b.operand, ast.Constant) and isinstance(b.operand.value, (int, float)):
+                        thr = -b.operand.value
+                    key = f"{nm}:guard:{' '.join(src(cmp).split())[:50]}"
+                    if is_len:
+                        if any(isinstance(x, ast.Attribute) and x.attr == "ndim" for x in ast.walk(a)) or thr is None:
+                            continue
+                        # the guard demands len OP thr (or raises when it holds): the smallest accepted length must not exceed the stated minimum
+                        o = type(op)
+                        if flip:
+                            o = {ast.Lt: ast.Gt, ast.Gt: ast.Lt, ast.LtE: ast.GtE, ast.GtE: ast.LtE}.get(o, o)
+                        if negated:
+                            o = {ast.Lt: ast.GtE, ast.LtE: ast.Gt, ast.Gt: ast.LtE, ast.GtE: ast.Lt}.get(o, o)
+                        smallest = thr if o is ast.GtE else thr + 1 if o is ast.Gt else None
+                        if smallest is None:
+                            continue
+                        ctx.check(smallest <= min_len, "R5.total", key, f"the length check of {nm} accepts every stated length (>= {min_len})",
+                                  f"`{src(cmp)}` makes {nm} reject series shorter than {smallest}, although the definition holds from length {min_len}", f, st)
+                        continue
+                    if thr is None:
+                        tol = any(isinstance(x, (ast.Name, ast.Attribute)) and any(k in (x.id if isinstance(x, ast.Name) else x.attr).lower() for k in ("eps", "tiny", "tol", "small", "min_"))
+                                  for x in ast.walk(b)) or any(isinstance(x, ast.Call) and (dotted(x.func) or "").split(".")[-1] in ("finfo", "spacing", "nextafter") for x in ast.walk(b))
+                        if tol:
+                            ctx.fail("R5.total", key, f"`{src(cmp)}` compares the argument of {nm} with the tolerance `{src(b)[:40]}`: positive values below it belong to the stated domain "
+                                     "(every positive value / every positive lambda) and are rejected", f, st)
+                        continue
+                    ctx.check(thr == 0, "R5.total", key, f"the value check of {nm} separates at zero",
+                              f"`{src(cmp)}` makes {nm} reject part of its stated domain: the threshold is {thr}, not 0 (every positive value / every positive lambda is valid)", f, st)
+    ctx.ok("R5.total", "time_series:guards", f"{n_guards} threshold comparison(s) found in argument checks of the time-series helpers: none cuts into the stated domain")
